@@ -8,6 +8,7 @@ oracle:         a textbook dense reconstruction (written here, independent of th
                 The same predicate is also evaluated inside Coq on the implementation's outputs (Corr_C14.prop14)."""
 import itertools, json
 from vf.core import *
+from vf import gentie, gentie2     # translator G14a: translate/gen_sparsity.py -> coq/gen/SparsityGen.v (SparsityGenEq.v: generated = Sparsity.v)
 
 SYM = ["Unsym", "Upper", "Lower"]
 ITY = ["TInt", "TLong", "TLongLong"]
@@ -422,7 +423,18 @@ def run(ctx):
                         "inputs whose indices leave the matrix, malformed outer_ptr and value vectors of the wrong length are undefined behaviour in the C++ (unchecked Eigen indexing under NDEBUG): excluded by `valid`, never executed by the driver",
                         "duplicate entries are a precondition violation guarded only by assert(): modelled faithfully (last write wins), excluded from the theorems and from the oracle",
                         "invalid enum values of order/symmetry (default: branches) are not modelled"]
-    check_properties(ctx)
+    gentie.translate(ctx, gentie2.SPARSITY)          # tie 1: regenerate coq/gen/SparsityGen.v from core.REPO; status -> ctx.coverage["translator_sparsity"]
+    ok = check_properties(ctx)                        # Properties_C14.v requires SparsityGenEq.v (generated = hand model, piece by piece, and whole runs)
+    if not ok:
+        gentie.name_obligations(ctx, gentie2.SPARSITY)   # name every SparsityGenEq obligation that no longer checks
+    gentie.account_eq(ctx, gentie2.SPARSITY, ok)
+    ctx.assumptions += ["translator G14a (gen_sparsity.py): x.resize(n) is `repeat default n` (contents unspecified in Eigen), x[i] = e is a list update, "
+                        "`to.reshaped(r, c)` is a view and `to.begin()` a position on the current buffer, the value provider `from(x)` overwrites x with "
+                        "the source's value vector, static_cast between index types is the identity (widths are a tag), an unreachable throwing `default:` "
+                        "arm is dropped; ALPAQA_HAVE_COO_CSC_CONVERSIONS is evaluated from its guard in sparse-ops.hpp with the harness compiler's feature-test macros",
+                        "generated piece = hand model piece is proved under the in-bounds contract of the C++ (outer_ptr consistent with inner_idx, index vectors of one "
+                        "length, one value per stored entry, target buffer of the target's nnz); agreement of the generated functions with the implementation is "
+                        "checked by Corr_SparsityGen.chk14g on the same records (independent of the hand model; target buffer pre-filled with the driver's sentinel)"]
     rc, log = coq_make(["theories/Corr_C14.vo"])
     if rc != 0:
         ctx.broke("correspondence", "Corr_C14.v does not compile", log)
@@ -477,6 +489,9 @@ def run(ctx):
                   json.dumps({"input": to_input(cases[k]), "impl_output": outs[k], "model": getattr(ctx, "last_dump", "")}))
     elif failing is not None:
         ctx.coverage["correspondence_disagreements"] = 0
+    # translation validation: the GENERATED converters against the same implementation records
+    gentie.validate(ctx, gentie2.SPARSITY, "gencorr", "Sparsity SparsityGenLib SparsityGen SparsityGenInst Corr_C14 Corr_SparsityGen", "c14case", "chk14g", terms,
+                    "model14g", lambda i: "%s->%s: %s" % (cases[idx[i]]["src"]["kind"], cases[idx[i]]["to"]["kind"], to_input(cases[idx[i]])[:1500]))
     # the property predicate evaluated inside Coq (dense_of / order_true of Sparsity.v) on the implementation's outputs
     pf = coq_failing_cases(ctx, "prop", "Sparsity Corr_C14", "c14case", "prop14", terms)
     if pf:
